@@ -86,7 +86,7 @@ Lemma fields_ok_write specs : forall vals, fields_ok specs vals = true ->
   exists fs, write_fields specs vals = Ok fs /\ length fs = length specs /\ line_ok (concat fs) = true /\
              map (fun p => default_rf (ft (fst p)) (snd p)) (combine specs fs) = expected_list specs vals.
 Proof.
-  induction specs as [|f specs IH]; intros [|v vals] H; cbn [fields_ok] in H; try discriminate.
+  induction specs as [|f specs IH]; intros [|v vals] H; cbn [fields_ok_g] in H; try discriminate.
   - exists []. repeat split; reflexivity.
   - apply andb_prop in H as [Hr Hs]. destruct (IH _ Hs) as [fs [W [Ln [Lo E]]]].
     unfold readback_ok in Hr. destruct (fmt_field f v) as [s|e] eqn:F; [|discriminate].
@@ -120,7 +120,7 @@ Lemma rec_fields_ok_parses r vals : rec_fields_ok r vals = true ->
   exists specs, specs_of r = Ok specs /\ wrec r vals = Ok (wl r vals) /\ line_ok (wl r vals) = true /\
     forall rest, parse_string default_rf specs (wl r vals ++ rest) = expected_list specs vals.
 Proof.
-  unfold rec_fields_ok, wl, wrec. destruct (specs_of r) as [specs|e]; [|discriminate]. intro H.
+  unfold rec_fields_ok_g, wl, wrec. destruct (specs_of r) as [specs|e]; [|discriminate]. intro H.
   destruct (record_parses_back _ _ H) as [l [W [Lo P]]]. exists specs. cbn [bind]. rewrite W. auto.
 Qed.
 Lemma rec_ok_parses r vals : rec_ok r vals = true ->
@@ -129,9 +129,9 @@ Lemma rec_ok_parses r vals : rec_ok r vals = true ->
     forall rest, parse_string default_rf specs (wl r vals ++ rest) = expected_list specs vals.
 Proof.
   intro H. assert (H2 : rec_fields_ok r vals = true).
-  { unfold rec_ok in H. unfold rec_fields_ok. destruct (specs_of r); [|discriminate]. apply andb_prop in H as [H _]. exact H. }
+  { unfold rec_ok_g in H. unfold rec_fields_ok_g. destruct (specs_of r); [|discriminate]. apply andb_prop in H as [H _]. exact H. }
   destruct (rec_fields_ok_parses _ _ H2) as [specs [S [W [Lo P]]]]. exists specs. repeat split; try assumption.
-  unfold rec_ok in H. rewrite S in H. apply andb_prop in H as [_ H].
+  unfold rec_ok_g in H. rewrite S in H. apply andb_prop in H as [_ H].
   unfold wrec in W. rewrite S in W. cbn [bind] in W. rewrite W in H. apply negb_true_iff in H. exact H.
 Qed.
 
@@ -302,7 +302,7 @@ Section Columns.
     = Ok (map (canon_name L) nms, rest).
   Proof.
     induction nms as [|nm r IH]; intros rest g H; [reflexivity|].
-    cbn [forallb] in H. apply andb_prop in H as [H1 H2]. unfold wf_colnode in H1. apply andb_prop in H1 as [F M].
+    cbn [forallb] in H. apply andb_prop in H as [H1 H2]. unfold wf_colnode_g in H1. apply andb_prop in H1 as [F M].
     destruct (rec_fields_ok_parses _ _ F) as [specs [S [W [Lo P]]]].
     rewrite specs_column_node in S. injection S as S. subst specs.
     cbn [length map app rd_colnodes hd_line tl_lines]. unfold enc_colnode at 1, add_nl at 1. rewrite P.
@@ -314,7 +314,7 @@ Section Columns.
   Lemma col_step c s : wf_col L scw (g_nodes s) c = true ->
     step_reads geo pad_length (rd_column L scr) column enc_col upd_col c s.
   Proof.
-    intros H first rest. unfold wf_col in H. apply andb_prop in H as [H Ha]. apply andb_prop in H as [H Hn].
+    intros H first rest. unfold wf_col_g in H. apply andb_prop in H as [H Ha]. apply andb_prop in H as [H Hn].
     exists (wl "column" (column_vals scw c)), (map enc_colnode (c_nodes c)). split; [reflexivity|].
     destruct (rec_ok_parses _ _ H) as [specs [S [W [Lo [Bl P]]]]].
     split; [rewrite maybe_pad_blank; exact Bl|].
@@ -389,7 +389,7 @@ Section Cons.
   Lemma con_step c s : wf_con L (map c_name (g_cols s)) c = true ->
     step_reads geo pad_length (rd_connection L) (str * str) enc_con upd_con c s.
   Proof.
-    intros H first rest. unfold wf_con in H. apply andb_prop in H as [H Mb]. apply andb_prop in H as [H Ma].
+    intros H first rest. unfold wf_con_g in H. apply andb_prop in H as [H Mb]. apply andb_prop in H as [H Ma].
     exists (wl "connection" (con_vals c)), []. split; [reflexivity|].
     destruct (rec_ok_parses _ _ H) as [specs [S [W [Lo [Bl P]]]]].
     split; [rewrite maybe_pad_blank; exact Bl|].
@@ -753,7 +753,7 @@ Section Shape.
     forallb (fun w => negb (match w_pos w with [] => true | _ => false end)) (g_wells g) = true /\
     NoDup (map (fun w => canon_wname (w_name w)) (g_wells g)).
   Proof.
-    pose proof WF as H. unfold wf_body in H.
+    pose proof WF as H. unfold wf_body_g in H.
     repeat (apply andb_prop in H; destruct H as [H ?]).
     repeat split; try assumption; try (apply nodup_str_NoDup; assumption); try (apply nodup_pair_NoDup; assumption).
     intro E. rewrite E in *. discriminate.
@@ -768,17 +768,17 @@ Section Shape.
   Proof.
     destruct wf_parts as [_ [_ [W _]]]. rewrite (mapM_ok _ (enc_col scw)).
     - cbn [bind]. rewrite flat_map_concat_map. reflexivity.
-    - intros c I. rewrite forallb_forall in W. specialize (W c I). unfold wf_col in W.
+    - intros c I. rewrite forallb_forall in W. specialize (W c I). unfold wf_col_g in W.
       apply andb_prop in W as [W _]. apply andb_prop in W as [W1 W2].
       unfold column_lines, enc_col. destruct (rec_ok_parses _ _ W1) as [? [_ [E _]]]. rewrite E. cbn [bind].
       rewrite (mapM_ok _ enc_colnode); [reflexivity|].
-      intros nm J. rewrite forallb_forall in W2. specialize (W2 nm J). unfold wf_colnode in W2. apply andb_prop in W2 as [W2 _].
+      intros nm J. rewrite forallb_forall in W2. specialize (W2 nm J). unfold wf_colnode_g in W2. apply andb_prop in W2 as [W2 _].
       destruct (rec_fields_ok_parses _ _ W2) as [? [_ [E2 _]]]. exact E2.
   Qed.
   Lemma mapM_cons : mapM (fun c => wrec "connection" (con_vals c)) (g_cons g) = Ok (flat_map enc_con (g_cons g)).
   Proof.
     destruct wf_parts as [_ [_ [_ [_ [W _]]]]]. unfold enc_con. rewrite flat_map_single. apply mapM_ok.
-    intros c I. rewrite forallb_forall in W. specialize (W c I). unfold wf_con in W.
+    intros c I. rewrite forallb_forall in W. specialize (W c I). unfold wf_con_g in W.
     apply andb_prop in W as [W _]. apply andb_prop in W as [W _].
     destruct (rec_ok_parses _ _ W) as [? [_ [E _]]]. exact E.
   Qed.
@@ -835,14 +835,14 @@ Section Shape.
     { apply flat_map_line_ok. intros n I. rewrite forallb_forall in W1. destruct (rec_ok_parses _ _ (W1 n I)) as [? [_ [_ [E _]]]].
       unfold enc_node. cbn [forallb]. rewrite E. reflexivity. }
     assert (A2 : forallb line_ok (flat_map (enc_col scw) (g_cols g)) = true).
-    { apply flat_map_line_ok. intros c I. rewrite forallb_forall in W2. specialize (W2 c I). unfold wf_col in W2.
+    { apply flat_map_line_ok. intros c I. rewrite forallb_forall in W2. specialize (W2 c I). unfold wf_col_g in W2.
       apply andb_prop in W2 as [W2 _]. apply andb_prop in W2 as [Wa Wb].
       destruct (rec_ok_parses _ _ Wa) as [? [_ [_ [E _]]]]. unfold enc_col. cbn [forallb]. rewrite E. cbn [andb].
       rewrite forallb_forall. intros l J. apply in_map_iff in J as [nm [Q J]]. subst l.
-      rewrite forallb_forall in Wb. specialize (Wb nm J). unfold wf_colnode in Wb. apply andb_prop in Wb as [Wb _].
+      rewrite forallb_forall in Wb. specialize (Wb nm J). unfold wf_colnode_g in Wb. apply andb_prop in Wb as [Wb _].
       destruct (rec_fields_ok_parses _ _ Wb) as [? [_ [_ [E2 _]]]]. exact E2. }
     assert (A3 : forallb line_ok (flat_map enc_con (g_cons g)) = true).
-    { apply flat_map_line_ok. intros c I. rewrite forallb_forall in W3. specialize (W3 c I). unfold wf_con in W3.
+    { apply flat_map_line_ok. intros c I. rewrite forallb_forall in W3. specialize (W3 c I). unfold wf_con_g in W3.
       apply andb_prop in W3 as [W3 _]. apply andb_prop in W3 as [W3 _].
       destruct (rec_ok_parses _ _ W3) as [? [_ [_ [E _]]]]. unfold enc_con. cbn [forallb]. rewrite E. reflexivity. }
     assert (A4 : forallb line_ok (flat_map (enc_lay scw) (g_lays g)) = true).
@@ -978,6 +978,9 @@ Section ReadBody.
 End ReadBody.
 
 (** * 6. the theorems *)
+Lemma split_written ls : forallb line_ok ls = true -> split_lines (unl (file_of_lines ls)) = map add_nl ls.
+Proof. intro H. rewrite unl_file by exact H. apply split_lines_file. exact H. Qed.
+
 Lemma first_line hl rest : line_ok hl = true ->
   hd_line (split_lines (unl (file_of_lines (hl :: rest)))) = add_nl hl.
 Proof.
@@ -999,7 +1002,7 @@ Qed.
 Theorem wf_write_ok g : wf g = true -> str_eqb (h_type (canon_header (g_hdr g))) (s2l supported_type) = true ->
   exists b, write g = Ok b.
 Proof.
-  unfold wf. intros H T. apply andb_prop in H as [Hh H].
+  unfold wf_g. intros H T. apply andb_prop in H as [Hh H].
   destruct (unit_scale_of (h_unit (g_hdr g))) as [scw|e] eqn:U; [|discriminate]. rewrite T in H.
   destruct (conv_len colname_lengths _) as [L|] eqn:EL; [|discriminate].
   destruct (conv_len layername_lengths _) as [LL|] eqn:ELL; [|discriminate].
@@ -1011,7 +1014,7 @@ Qed.
 (** THE round trip: reading what was written gives the canonical geometry *)
 Theorem read_write_roundtrip g b : wf g = true -> write g = Ok b -> read b = Ok (canon g).
 Proof.
-  unfold wf. intros H Wr. apply andb_prop in H as [Hh H].
+  unfold wf_g. intros H Wr. apply andb_prop in H as [Hh H].
   destruct (header_reads _ Hh) as [hs [hl [R [W [Lo Rd]]]]].
   destruct (unit_scale_of (h_unit (g_hdr g))) as [scw|e] eqn:U; [|discriminate].
   destruct (str_eqb (h_type (canon_header (g_hdr g))) (s2l supported_type)) eqn:T.
